@@ -29,7 +29,7 @@ fn zero<T: Real>() -> Complex<T> {
 fn same_bits<T: Real>(a: &[Complex<T>], b: &[Complex<T>]) -> Option<usize> {
     a.iter().zip(b).position(|(x, y)| x.re.bits() != y.re.bits() || x.im.bits() != y.im.bits())
 }
-fn first_nonfinite<T: Real>(a: &[Complex<T>]) -> Option<usize> {
+pub fn first_nonfinite<T: Real>(a: &[Complex<T>]) -> Option<usize> {
     a.iter().position(|c| !c.re.is_fin() || !c.im.is_fin())
 }
 
@@ -264,6 +264,10 @@ pub fn k_scratch<T: Real>(case: &Case) -> Outcome {
 // p[0]: data length, p[1]: output length (two-buffer entry points), p[2]: scratch code (0: none, 1: adv-1, 2: adv, 3: adv+1)
 // p[3]: guard orientation (0 high, 1 low)
 
+fn truncate_msg(m: &str) -> String {
+    m.chars().take(160).collect()
+}
+
 pub fn k_shape<T: Real>(case: &Case) -> Outcome {
     let fft = match obtain::<T>(case) {
         Ok(f) => f,
@@ -294,7 +298,7 @@ pub fn k_shape<T: Real>(case: &Case) -> Outcome {
         }
     };
     let well = data_len % n == 0 && (!two || out_len == data_len) && (case.entry == Entry::Process || scratch_len >= adv);
-    let flush = if case.pget(3) == 1 { Flush::Low } else { Flush::High };
+    let flush = Flush::from_code(case.pget(3));
     let src = make_input::<T>(&case.input, data_len, 1);
     let mut data = Guarded::from_slice(&src, flush);
     let mut out = Guarded::<Complex<T>>::new(out_len, flush, fill_value(1));
@@ -308,6 +312,15 @@ pub fn k_shape<T: Real>(case: &Case) -> Outcome {
                 return Outcome::bad(format!("ill-shaped call reached an out-of-bounds access (bounds debug-assert fired) before any contract panic: {} @ {}; {}", p.msg, p.loc, shape));
             }
             let documented = classify_panic(&p) == PanicClass::Contract;
+            // the failed call must leave the instance usable: a well-shaped call through the same entry point right afterwards
+            // (the first half of the property, on an instance with this history) must complete
+            let one = make_input::<T>(&case.input, n, 1);
+            if let Err(p2) = transform(&*fft, case.entry, &one) {
+                return Outcome::bad(format!(
+                    "well-shaped call panicked on an instance whose previous (ill-shaped) call had ended in a panic: {} @ {}; the ill-shaped call was {} and panicked with: {}",
+                    p2.msg, p2.loc, shape, truncate_msg(&p.msg)
+                ));
+            }
             Outcome::held(true).label(if documented { "ill-shaped: documented panic text" } else { "ill-shaped: other panic text" }).label(format!("entry:{:?}", case.entry))
         }
         (true, Err(p)) => Outcome::bad(format!("well-shaped call panicked: {} @ {}; {}", p.msg, p.loc, shape)),
@@ -409,7 +422,7 @@ pub fn k_guard<T: Real>(case: &Case) -> Outcome {
     }
     let n = case.n;
     let k = case.chunks.max(1);
-    let flush = if case.pget(0) == 1 { Flush::Low } else { Flush::High };
+    let flush = Flush::from_code(case.pget(0));
     let src = make_input::<T>(&case.input, n, k);
     let two = result_in_out(case.entry);
     let adv = adv_scratch(&*fft, case.entry);
@@ -430,7 +443,7 @@ pub fn k_guard<T: Real>(case: &Case) -> Outcome {
     let rows = row_residue_label(n);
     Outcome::held(n >= 2 && (k >= 2 || adv > 0 || !rows.is_empty()))
         .label(format!("entry:{:?}", case.entry))
-        .label(format!("guard:{}", if flush == Flush::High { "high" } else { "low" }))
+        .label(format!("guard:{}", flush.name()))
         .label(format!("chunks:{}", k))
         .label(format!("len:{}", crate::gen::classify_len(n)))
         .label(if rows.is_empty() { "rows:aligned".to_string() } else { rows })
